@@ -23,6 +23,7 @@ RULE = ("case = (start state, configuration, event script over 1..3 connections)
 ASSUMPTIONS = ["hop-by-hop ids of in-flight requests are unique per connection (the quantifier says so)",
                "quiescence between inputs makes each output attributable to the last input"]
 TIMEOUT = {"quick": 900, "thorough": 3600}
+SCTP_CLONES = {"quick": ['rand3', 'exh0'], "thorough": ['rand14', 'rand15', 'exh0', 'exh1']}
 
 REQ_LETTERS = ["CER", "DWR", "DPR", "REQ", "REQmiss", "REQcmd", "REQapp", "REQrealm", "REQnorealm"]
 ANS_LETTERS = ["CEA", "CEAnohost", "DWA", "DWAbare", "DPA", "ANS", "ANSbare", "ANSerr"]
